@@ -88,6 +88,7 @@ func execC33(t *testing.T, c *sim.Case) *sim.Result {
 		}
 		if dbMode {
 			verifhook.Set("lsm.no-background-compaction", 1)
+			verifhook.Set("lsm.serial-table-build", 1)
 			verifhook.BeforeLockFn = nil
 			// engine workers are not tasks here: only contenders park
 			b.sched.Ignore = func(site string) bool {
